@@ -10,8 +10,10 @@ satisfying the emulator invariant on a terminal of at most 65535×65535 and ever
 0..65535 — which is what csi() passes on since the clamp of fix F18 (`clampParam_ok`,
 `ps_clamp_ok` in Props/C05.lean). So on all reachable states int64 arithmetic and ℤ arithmetic
 coincide in these bodies: modelling `int` by `Int` is sound there (it was not before F18: Witness/F18).
-Not covered: the bodies without a `body_<fn>` theorem (print, resize, ich, rep, cht/cbt/tbc, sgr) —
-for those the claim rests on the safety lemmas' bounds and the correspondence run.
+Round 4: cht and cbt (the loops over the tab stops) are covered too — `range_cht`, `range_cbt` need NO hypothesis on the state
+(neither the invariant nor a bound on the tab stops): the only arithmetic is the counter `n + 1` with `n ≤ ps ≤ 65535`.
+Not covered: print, resize (function-level loops, `printCell`), tbc/hts (no arithmetic), sgr/osc/modes (no arithmetic on
+positions) — for print/resize the claim rests on the safety lemmas' bounds and the correspondence run.
 -/
 import VaxisModel.Lemmas.EmuBodyRange
 
@@ -371,5 +373,68 @@ theorem range_csi_sd {e : Emu} {rows cols : Nat} (h : EmuInv e rows cols) (d : D
     lines down from row 0: `vt.cursor.row += row(ps)` leaves the range). -/
 example : rangeBody TermBodies.body_cud [] [9223372036854775807] { Emu.init with bottom := 23 } = false := by
   decide
+
+/-- CHT (and HT through it): the counter of the walk over the tab stops never exceeds `ps` — for EVERY state and tab-stop list -/
+theorem range_cht (e : Emu) {n : Int} (hn : POk n) :
+    rangeBody TermBodies.body_cht [] [n] e = true := by
+  unfold POk at hn
+  unfold rangeBody
+  simp only [TermBodies.body_cht, cht_shape, rangeS_seq]
+  have e1 : ∀ s : Frame, evalS [] (.setLastCol false) s = .ok ({ s with e := { s.e with lastCol := false } }, .norm) := by
+    intro s; simp [evalS]
+  have e2 : ∀ s : Frame, evalS [] (.ite (.cmp .eq (.loc (.var 0)) (.lit 0)) (.assign (.var 0) (.lit 1)) .skip) s =
+      .ok (if s.vars 0 = 0 then s.set (.var 0) 1 else s, .norm) := by
+    intro s
+    simp only [evalS, evalCond, evalEx, exOk, Frame.get, if_true]
+    simp only [evalCmp]
+    by_cases h : s.vars 0 = 0 <;> simp [h]
+  have e3 : ∀ s : Frame, evalS [] (.assign (.var 1) (.lit 0)) s = .ok (s.set (.var 1) 0, .norm) := by
+    intro s; simp [evalS, exOk, evalEx]
+  have r1 : ∀ s : Frame, rangeS [] (.setLastCol false) s = true := by intro s; simp [rangeS]
+  have r2 : ∀ s : Frame, rangeS [] (.ite (.cmp .eq (.loc (.var 0)) (.lit 0)) (.assign (.var 0) (.lit 1)) .skip) s = true := by
+    intro s; simp only [rangeS, condR, exR, Bool.and_true, Bool.true_and]; split <;> simp [rangeS, exR]
+  have r3 : ∀ s : Frame, rangeS [] (.assign (.var 1) (.lit 0)) s = true := by intro s; simp [rangeS, exR]
+  simp only [e1, e2, e3, r1, r2, r3, andThen_norm, Bool.true_and]
+  rw [Bool.and_eq_true]
+  refine ⟨?_, andThen_all _ _ (chtTail_range [])⟩
+  show rangeTabLoop (fun s => rangeS [] chtLoopBody s) (fun s => evalS [] chtLoopBody s) _ _ = true
+  apply chtLoop_range
+  refine ⟨?_, ?_, ?_⟩
+  · simp [Frame.set]
+  · by_cases h0 : n = 0 <;> simp [Frame.set, initFrame, h0] <;> omega
+  · by_cases h0 : n = 0 <;> simp [Frame.set, initFrame, h0] <;> omega
+
+
+/-- CBT: likewise, from the last tab stop down -/
+theorem range_cbt (e : Emu) {n : Int} (hn : POk n) :
+    rangeBody TermBodies.body_cbt [] [n] e = true := by
+  unfold POk at hn
+  unfold rangeBody
+  simp only [TermBodies.body_cbt, cbt_shape, rangeS_seq]
+  have e1 : ∀ s : Frame, evalS [] (.setLastCol false) s = .ok ({ s with e := { s.e with lastCol := false } }, .norm) := by
+    intro s; simp [evalS]
+  have e2 : ∀ s : Frame, evalS [] (.ite (.cmp .eq (.loc (.var 0)) (.lit 0)) (.assign (.var 0) (.lit 1)) .skip) s =
+      .ok (if s.vars 0 = 0 then s.set (.var 0) 1 else s, .norm) := by
+    intro s
+    simp only [evalS, evalCond, evalEx, exOk, Frame.get, if_true]
+    simp only [evalCmp]
+    by_cases h : s.vars 0 = 0 <;> simp [h]
+  have e3 : ∀ s : Frame, evalS [] (.assign (.var 1) (.lit 0)) s = .ok (s.set (.var 1) 0, .norm) := by
+    intro s; simp [evalS, exOk, evalEx]
+  have r1 : ∀ s : Frame, rangeS [] (.setLastCol false) s = true := by intro s; simp [rangeS]
+  have r2 : ∀ s : Frame, rangeS [] (.ite (.cmp .eq (.loc (.var 0)) (.lit 0)) (.assign (.var 0) (.lit 1)) .skip) s = true := by
+    intro s; simp only [rangeS, condR, exR, Bool.and_true, Bool.true_and]; split <;> simp
+  have r3 : ∀ s : Frame, rangeS [] (.assign (.var 1) (.lit 0)) s = true := by intro s; simp [rangeS, exR]
+  simp only [e1, e2, e3, r1, r2, r3, andThen_norm, Bool.true_and]
+  show rangeTabLoop (fun s => rangeS [] cbtLoopBody s) (fun s => evalS [] cbtLoopBody s) _ _ = true
+  apply cbtLoop_range
+  refine ⟨?_, ?_, ?_⟩
+  · simp [Frame.set]
+  · by_cases h0 : n = 0 <;> simp [Frame.set, initFrame, h0] <;> omega
+  · by_cases h0 : n = 0 <;> simp [Frame.set, initFrame, h0] <;> omega
+
+/-- non-vacuity: 44 tab stops, `CSI 3 I` from column 0; and the check does look at the counter: with `n` near 2^62 it fails -/
+example : rangeBody TermBodies.body_cht [] [3] { Emu.init with right := 79, primary := [List.replicate 80 {}], alt := [List.replicate 80 {}] } = true := by decide
+example : rangeS [] chtLoopBody { e := Emu.init, vars := fun k => if k = 1 then 4611686018427387904 else 4611686018427387905 } = false := by decide
 
 end VaxisModel.Props.C05Overflow
